@@ -1026,6 +1026,11 @@ class EClass(EClassifier):
         yield from self.eOperations
         for parent in self.eSuperTypes:
             yield from parent._eAllOperations_gen()
+        # operations are inherited through the generic super types as well
+        # (like features: their classifiers are bases of the Python class)
+        for parent in self.eGenericSuperTypes:
+            if parent.eClassifier is not None:
+                yield from parent.eClassifier._eAllOperations_gen()
 
     def eAllOperations(self):
         return OrderedSet(self._eAllOperations_gen())
